@@ -443,6 +443,38 @@ func ruleC16(c *Ctx) {
 				}
 			}
 		}
+		// whatever form the reading takes: a reading call whose error result nobody looks at, in a function
+		// that has an error to return, hands a partial (or empty) listing to Parse under a nil error
+		if st != broken {
+			eachInstr(rd, func(i ssa.Instruction) {
+				cl, ok := i.(*ssa.Call)
+				if !ok || st == broken {
+					return
+				}
+				switch n := calleeName(cl); n {
+				case "os.ReadFile", "io/ioutil.ReadFile", "io.ReadAll", "io/ioutil.ReadAll", "(*bytes.Buffer).ReadFrom", "io.Copy", "io.CopyBuffer", "io.ReadFull", "(*bufio.Reader).ReadString", "(*bufio.Reader).ReadBytes":
+					sig := cl.Call.Signature().Results()
+					if sig.Len() < 2 || tname(sig.At(sig.Len()-1).Type()) != "error" {
+						return
+					}
+					used := false
+					if cl.Referrers() != nil {
+						for _, r := range *cl.Referrers() {
+							if ex, isEx := r.(*ssa.Extract); isEx && ex.Index == sig.Len()-1 && ex.Referrers() != nil {
+								for _, rr := range *ex.Referrers() {
+									if _, isDbg := rr.(*ssa.DebugRef); !isDbg {
+										used = true
+									}
+								}
+							}
+						}
+					}
+					if !used {
+						st, why = broken, "Read calls "+n+" and never looks at the error it returns: when reading fails part-way (or at once), Parse is handed what was read so far and Read returns that map with a nil error"
+					}
+				}
+			})
+		}
 		c.judge(st, "WRAPPERS", "Read", rd.Pos(), "Read returns (Parse(file), nil) or the read error", why)
 	} else {
 		c.missing("WRAPPERS", "Read", "rebase.Read")
